@@ -99,7 +99,13 @@ impl ActTask for Act {
         let state = task.state();
         let mut is_next: bool = false;
         if state.is_running() {
-            let tasks = task.children();
+            // the acts fired by lifecycle hooks hang off the act but are not part of its work:
+            // they neither hold it open nor report back to it
+            let tasks: Vec<_> = task
+                .children()
+                .into_iter()
+                .filter(|t| !t.is_event_processed())
+                .collect();
             let mut count = 0;
 
             for task in tasks.iter() {
@@ -144,7 +150,11 @@ impl ActTask for Act {
         let task = ctx.task();
         let state = task.state();
         if state.is_running() {
-            let tasks = task.children();
+            let tasks: Vec<_> = task
+                .children()
+                .into_iter()
+                .filter(|t| !t.is_event_processed())
+                .collect();
             let mut count = 0;
             for t in tasks.iter() {
                 if t.state().is_error() {
